@@ -20,7 +20,7 @@ type c14Stats struct {
 	samples                           []string
 }
 
-var preIdents = []string{"rc1", "beta", "alpha-2", "0", "7", "x-y", "-", "0a", "rc", "1"}
+var preIdents = []string{"rc1", "beta", "alpha-2", "0", "7", "x-y", "-", "0a", "rc", "1", "14-g2414721", "3-gabcdef0"}
 var metaIdents = []string{"git", "abc123", "20240101", "001", "b-7", "-"}
 
 func genSemver(rng *rand.Rand) string {
@@ -260,7 +260,9 @@ func cmdC14(tier string, seed int64, out, statsOut, replay string) {
 	// components a semantic-version library would not accept beside a component embedded in the version
 	fi := 0
 	for _, schema := range []string{"", "none", "semver"} {
-		for _, v := range []string{"v1.2.3", "v1.2.3.4", "v2024.01.15", "v1.02.3", "V1.2.3", "v7", "vista.3", "1.2.3.4", "v1.4.0+g1a2b3c4", "1.4.0-rc.1", "v1.4.0-rc.1+b7", "1.4.0"} {
+		for _, v := range []string{"v1.2.3", "v1.2.3.4", "v2024.01.15", "v1.02.3", "V1.2.3", "v7", "vista.3", "1.2.3.4", "v1.4.0+g1a2b3c4", "1.4.0-rc.1", "v1.4.0-rc.1+b7", "1.4.0",
+			// what `git describe` prints after a tag: a prerelease like any other
+			"1.2.3-14-g2414721", "v1.0.0-rc1-3-gabcdef0", "2.0.0-x-7-g0123abc", "1.2", "1", "v3"} {
 			for _, pm := range [][2]string{{"", ""}, {"nightly.2024.01.15", ""}, {"", "build_77"}, {"rc..1", ""}, {"a~b", "x+y"}, {"01", "001"}} {
 				fi++
 				emitSplit(fmt.Sprintf("f-%d", fi), schema, v, pm[0], pm[1])
@@ -334,6 +336,24 @@ func cmdC14(tier string, seed int64, out, statsOut, replay string) {
 				st.samples = append(st.samples, fmt.Sprintf("order %s: prerelease build %q vs release %q", format, ver(a), ver(b)))
 			}
 		}
+		st.cases++
+	}
+	// epochs at and beyond what rpm's 32-bit field holds: either the package is refused, or the higher epoch sorts higher
+	for i, big := range []string{"4294967295", "4294967296", "4294967299", "8589934594"} {
+		id := fmt.Sprintf("o-big-epoch-%s", big)
+		_ = i
+		writeDesc(id, map[string]string{"kind": "order", "base": "1.0.0", "prerelease": "rc1", "metadata": "", "release": "1", "epoch": big, "embedded": "false"})
+		lo, err1 := buildVersionOf("rpm", "1.0.0", "rc1", "", "1", "5")
+		rel, err2 := buildVersionOf("rpm", "1.0.0", "", "", "1", "5")
+		hi, err3 := buildVersionOf("rpm", "1.0.0", "rc1", "", "1", big)
+		higher, err4 := buildVersionOf("rpm", "1.0.1", "", "", "1", "5")
+		if err1 != nil || err2 != nil || err3 != nil || err4 != nil || hi == nil {
+			w.line("vorder %s %s err", id, xs("rpm"))
+			continue
+		}
+		ver := func(m map[string]string) string { return m["Epoch"] + "|" + m["Version"] + "|" + m["Release"] }
+		w.line("vorder %s %s ok %s %s %s %s", id, xs("rpm"), xs(ver(lo)), xs(ver(rel)), xs(ver(hi)), xs(ver(higher)))
+		st.pairs++
 		st.cases++
 	}
 	// the Gallina port of dpkg's comparison against dpkg itself
